@@ -595,7 +595,7 @@ impl DrawState {
         // accurately reflect the number of lines that have been displayed on the terminal, if the
         // full height exceeds the terminal height.
         let mut real_height = VisualLines::default();
-        let mut printed_any = shift != VisualLines::default();
+        let mut printed_any = false;
 
         for (idx, line) in self.lines.iter().enumerate() {
             let line_height = line.wrapped_height(term_width);
@@ -654,7 +654,9 @@ impl DrawState {
         self.padding = shift;
         if printed_any {
             self.cursor_below = false;
-        } else if cleared_any {
+        } else if cleared_any || shift != VisualLines::default() {
+            // (an empty bottom-aligned frame consists of blank lines only and leaves the cursor
+            // below them)
             self.cursor_below = true;
         }
 
